@@ -313,13 +313,13 @@ fn main() -> ExitCode {
         return usage();
     };
     exec::install_panic_hook();
-    let r = match args[1].as_str() {
-        "replay" => replay(&flags),
-        "gen" => generate(&flags),
-        "sgen" => sgen(&flags),
-        "sdfs" => sdfs(&flags),
-        "sdfs-gen" => sdfs_gen(&flags),
-        _ => return usage(),
+    // Everything runs on a thread that is driven by a `futures` executor, as the synchronous, non-blocking part of the
+    // API may be called from such a thread (the blocking variants only ever park on `tokio`'s own primitives).
+    // The harness never starts a second executor itself: it polls futures by hand.
+    let r = futures::executor::block_on(async { run(&args, &flags) });
+    let r = match r {
+        Some(r) => r,
+        None => return usage(),
     };
     match r {
         Ok(()) => ExitCode::SUCCESS,
@@ -328,4 +328,16 @@ fn main() -> ExitCode {
             ExitCode::from(1)
         }
     }
+}
+
+fn run(args: &[String], flags: &HashMap<String, String>) -> Option<Result<(), String>> {
+    let r = match args[1].as_str() {
+        "replay" => replay(flags),
+        "gen" => generate(flags),
+        "sgen" => sgen(flags),
+        "sdfs" => sdfs(flags),
+        "sdfs-gen" => sdfs_gen(flags),
+        _ => return None,
+    };
+    Some(r)
 }
